@@ -31,7 +31,9 @@ var c12Patterns = []string{"", "^a", "^zz"}
 // DM.SCAN loops; present is the set of keys that must be reported.
 func c12ScanAll(cl *simcluster.Cluster, dmName string, present map[string]bool, sig string) []clustermc.Fail {
 	var fs []clustermc.Fail
-	add := func(k, f string, a ...interface{}) { fs = append(fs, clustermc.Fail{Key: k, What: fmt.Sprintf(f, a...)}) }
+	add := func(k, f string, a ...interface{}) {
+		fs = append(fs, clustermc.Fail{Key: k, What: fmt.Sprintf(f, a...)})
+	}
 	cc, err := cl.ClusterClient(cl.Live()[len(cl.Live())-1])
 	if err != nil {
 		add("client", "cluster client: %v", err)
@@ -58,63 +60,81 @@ func c12ScanAll(cl *simcluster.Cluster, dmName string, present map[string]bool, 
 			if pat != "" {
 				opts = append(opts, olric.Match(pat))
 			}
-			csig := fmt.Sprintf("count=%d/match=%q/%s", count, pat, sig)
-			// --- client iterator: exactly once ---
-			it, err := dm.Scan(context.Background(), opts...)
-			if err != nil {
-				add("iterator/open/"+csig, "Scan: %v", err)
-				continue
-			}
-			got := map[string]int{}
+			csig0 := fmt.Sprintf("count=%d/match=%q/%s", count, pat, sig)
 			horizon := 4*(len(present)+1)*len(cl.Live()) + int(cl.O.Partitions)*4 + 16
-			// The iteration runs under a wall-clock watchdog that is only used to NAME a hang: a
-			// single Next() call that never returns cannot be interrupted from inside. Closing the
-			// iterator cancels its context, which ends the loop inside Next().
-			done := make(chan string, 1)
-			go func() {
-				n := 0
-				for it.Next() {
-					got[it.Key()]++
-					n++
-					if n > horizon {
-						done <- fmt.Sprintf("the iterator yielded %d keys for %d present keys and is still going", n, len(present))
-						return
+			// --- client iterators: exactly once. The cluster client's iterator and the embedded
+			// client's iterator (which scans the partitions its member owns in process) ---
+			for _, kind := range []string{"iterator", "embedded-iterator"} {
+				csig := csig0
+				var it olric.Iterator
+				var err error
+				if kind == "iterator" {
+					it, err = dm.Scan(context.Background(), opts...)
+				} else {
+					csig = "embedded/" + csig0
+					em := cl.Live()[0]
+					edm, eerr := em.Emb.NewDMap(dmName)
+					if eerr != nil {
+						add("iterator/open/"+csig, "NewDMap: %v", eerr)
+						continue
+					}
+					it, err = olric.VerifEmbeddedScan(context.Background(), edm.(*olric.EmbeddedDMap), cc, opts...)
+				}
+				if err != nil {
+					add("iterator/open/"+csig, "Scan: %v", err)
+					continue
+				}
+				got := map[string]int{}
+				// The iteration runs under a wall-clock watchdog that is only used to NAME a hang: a
+				// single Next() call that never returns cannot be interrupted from inside. Closing the
+				// iterator cancels its context, which ends the loop inside Next().
+				done := make(chan string, 1)
+				go func() {
+					n := 0
+					for it.Next() {
+						got[it.Key()]++
+						n++
+						if n > horizon {
+							done <- fmt.Sprintf("the iterator yielded %d keys for %d present keys and is still going", n, len(present))
+							return
+						}
+					}
+					done <- ""
+				}()
+				hung := false
+				select {
+				case msg := <-done:
+					if msg != "" {
+						add("iterator/not-terminating/"+csig, "%s", msg)
+					}
+					it.Close()
+				case <-time.After(3 * time.Second):
+					hung = true
+					it.Close()
+					select {
+					case <-done:
+					case <-time.After(5 * time.Second):
+						core.PoisonWorker() // the goroutine is still spinning: this process must not be reused
+					}
+					add("iterator/next-never-returns/"+csig, "a Next() call of the client iterator did not return within 3s of wall-clock time (it normally takes microseconds); keys yielded before: %v", keysOf(got))
+				}
+				if hung {
+					continue
+				}
+				for k, c := range got {
+					if !want[k] {
+						add("iterator/unexpected-key/"+csig, "the iterator yields %q which is absent, deleted or does not match", k)
+					} else if c > 1 {
+						add("iterator/duplicate/"+csig, "the iterator yields %q %d times", k, c)
 					}
 				}
-				done <- ""
-			}()
-			hung := false
-			select {
-			case msg := <-done:
-				if msg != "" {
-					add("iterator/not-terminating/"+csig, "%s", msg)
-				}
-				it.Close()
-			case <-time.After(3 * time.Second):
-				hung = true
-				it.Close()
-				select {
-				case <-done:
-				case <-time.After(5 * time.Second):
-					core.PoisonWorker() // the goroutine is still spinning: this process must not be reused
-				}
-				add("iterator/next-never-returns/"+csig, "a Next() call of the client iterator did not return within 3s of wall-clock time (it normally takes microseconds); keys yielded before: %v", keysOf(got))
-			}
-			if hung {
-				continue
-			}
-			for k, c := range got {
-				if !want[k] {
-					add("iterator/unexpected-key/"+csig, "the iterator yields %q which is absent, deleted or does not match", k)
-				} else if c > 1 {
-					add("iterator/duplicate/"+csig, "the iterator yields %q %d times", k, c)
+				for k := range want {
+					if got[k] == 0 {
+						add("iterator/missed/"+csig, "the iterator misses present key %q (yielded %v)", k, keysOf(got))
+					}
 				}
 			}
-			for k := range want {
-				if got[k] == 0 {
-					add("iterator/missed/"+csig, "the iterator misses present key %q (yielded %v)", k, keysOf(got))
-				}
-			}
+			csig := csig0
 			// --- raw DM.SCAN per partition and primary owner: at least once, nothing absent ---
 			raw := map[string]int{}
 			view := cl.Live()[0]
